@@ -113,7 +113,8 @@ def run_check(prop, tier, jobs, level_note, assumptions, bounds, seed=None, extr
     samples = []
     job_summ = []
     for job in jobs:
-        recs, dt = engine.run_harness(prog, job.harness, job.params, job.opts, budget_s=job.budget_s)
+        budget = min(job.budget_s, 420) if tier == "quick" else job.budget_s
+        recs, dt = engine.run_harness(prog, job.harness, job.params, job.opts, budget_s=budget)
         s = engine.summarize(recs)
         for k in ("paths", "ok", "panic", "pruned", "stmts", "queries", "solver_time", "forks"):
             totals[k] += s[k]
